@@ -17,7 +17,25 @@ def build(call):
     return cal, set(hol), set(we), t0, t1
 
 
+def replay_registry(call):
+    from pyg_base import calendar
+    key = 'replay_reg_%d' % next(_ctr)
+    d1, d2 = D(2020, 1, 1), D(2020, 1, 2)
+    if call.get('registered'):
+        calendar(key, holidays=[d1], weekend=[4, 5], t0=D(2019, 1, 1), t1=D(2021, 1, 1))
+    hol = None if not call.get('holidays_given') else ([d2] if call.get('holidays_truthy') else [])
+    we = None if not call.get('weekend_given') else ([6] if call.get('weekend_truthy') else [])
+    got = calendar(key, holidays=hol, weekend=we)
+    exp_h = [d1] if (hol is None and we is None and call.get('registered')) else (hol or [])
+    exp_w = [4, 5] if (hol is None and we is None and call.get('registered')) else (we if we is not None else [5, 6])
+    ok = list(got.holidays.keys()) == exp_h and list(got.weekend) == exp_w and calendar(key) is got
+    return dict(fails=not ok, detail='calendar(%r, holidays=%r, weekend=%r) after %s gives holidays %s weekend %s, expected %s / %s' % (
+        key, hol, we, 'a registration with [2020-01-01]/[4,5]' if call.get('registered') else 'no registration', list(got.holidays.keys()), list(got.weekend), exp_h, exp_w))
+
+
 def replay(call):
+    if call.get('kind') == 'registry':
+        return replay_registry(call)
     cal, hol, we, t0, t1 = build(call)
     o = int(call['o'])
     t = D.fromordinal(o) + datetime.timedelta(microseconds=int(call.get('us') or 0))
